@@ -780,3 +780,21 @@ Proof.
   replace (Z.of_nat (length l + 1) - 1)%Z with (Z.of_nat (length l)) by lia.
   apply get_z_nth. rewrite nth_error_app2 by lia. rewrite Nat.sub_diag. reflexivity.
 Qed.
+
+(* ---- small corollaries used by Props/C14.v --------------------------------------- *)
+
+Lemma fold_empty {A State} (seed : State) (acc : State -> A -> State) :
+  fold [] seed acc = seed /\ foldreverse [] seed acc = Ok seed.
+Proof. split; reflexivity. Qed.
+
+(* DistinctFunc for an arbitrary equals, by its recursion on the input: the last element is
+   kept iff it is not equal to one of the elements kept from the part before it *)
+Lemma distinctfunc_snoc {A} (l : list A) (x : A) equals :
+  distinctfunc [] equals = [] /\
+  distinctfunc (l ++ [x]) equals =
+    if existsb (fun u => equals u x) (distinctfunc l equals) then distinctfunc l equals
+    else distinctfunc l equals ++ [x].
+Proof.
+  split; [reflexivity|]. rewrite !distinctfunc_greedy, fold_left_app. cbn [fold_left].
+  unfold distinct_step at 1. destruct (existsb _ _); reflexivity.
+Qed.
